@@ -357,6 +357,33 @@ def compress (env : Env) (hook : Attrs → Attrs) (suffix : String)
   { c with attrs := hook c.attrs
            logs := some (renameOldLogs suffix (c.logs.getD []) ++ newLogs) }
 
+/-- the logs group after one `dclab-compress` run as a function of the input's logs: copy, move the
+    old command logs away, append the new ones -/
+def logStep (env : Env) (suffix : String) (newLogs : List (String × Dset))
+    (ls : List (String × Dset)) : List (String × Dset) :=
+  renameOldLogs suffix (copyLogs env {} ls) ++ newLogs
+
+/-- `hc["logs"][f"{lkey}_{md5}"] = hc["logs"][lkey]` needs a free target name: h5py refuses to
+    create a link under a name that exists (the task aborts, no output is produced) -/
+def renameCollides (suffix : String) (ls : List (String × Dset)) : Bool :=
+  cmdLogNames.any fun n =>
+    (ls.map (·.1)).contains n && (ls.map (·.1)).contains (n ++ "_" ++ suffix)
+
+/-- `n` successive `dclab-compress` runs; run `k` sees an input with hash `sfx k` and writes the
+    command log `cmd k` -/
+def compressGen (env : Env) (hook : Attrs → Attrs) (sfx : Nat → String) (cmd : Nat → Dset) :
+    Nat → File → File
+  | 0, x => x
+  | k + 1, x =>
+    compress env hook (sfx k) [("dclab-compress", cmd k)] (compressGen env hook sfx cmd k x)
+
+/-- the command logs a file carries after `n` runs, oldest first: run `j`'s log was renamed by run
+    `j + 1` (whose input had hash `sfx (j+1)`); the last run's log has the plain name -/
+def cmdHistory (sfx : Nat → String) (cmd : Nat → Dset) : Nat → List (String × Dset)
+  | 0 => []
+  | n + 1 => ((List.range n).map fun j => ("dclab-compress" ++ "_" ++ sfx (j + 1), cmd j)) ++
+      [("dclab-compress", cmd n)]
+
 /-- the part of a file that compress / repack must never change: everything but the metadata
     touched by the writer hook and the command logs -/
 def dataPart (env : Env) (isCmdLog : String → Bool) (f : File) : View :=
@@ -426,6 +453,18 @@ def sel : List Bool → List α → List α
 /-- exported rows of one feature (`export.hdf5(filtered=True)`, C02) -/
 def tdms2rtdcRows (firstEmpty lastEmpty : Bool) (rows : List α) : List α :=
   sel (skipMask rows.length firstEmpty lastEmpty) rows
+
+/-- the two flags `skip_empty_image_events` derives from the dataset and the task options:
+    `initial ∧ (video frame offset ≠ 0 ∨ first contour all zero ∨ first image all zero)` and
+    `final ∧ has image ∧ (last frame corrupt (tdms) / last image all zero)` -/
+def skipFlags (initial final hasImage frameOffset contour0 image0 lastBad : Bool) : Bool × Bool :=
+  (initial && (hasImage && frameOffset || contour0 || hasImage && image0),
+   final && hasImage && lastBad)
+
+/-- spec: the kept events in closed form -/
+def tdmsKept (firstEmpty lastEmpty : Bool) (rows : List α) : List α :=
+  let r := if firstEmpty then rows.drop 1 else rows
+  if lastEmpty then r.dropLast else r
 
 /-- bulk conversion of a directory: the feature list is determined per measurement
     (`ds.features_innate` of that measurement) -/
